@@ -1,12 +1,19 @@
-(* C12 (partial) — only(): the result is implied by the marker, and is equivalent to it when
-   the marker mentions only the kept names; for every fuel, set order and sound version-atom
-   merge (as C02).  Model: Model/Marker.v `monly` (S-mark stream, MCOnly cases).
-   NOT proved here (decided by the direct oracle of this property): that no variable outside
-   `names` is mentioned by the result (a syntactic invariant through the whole normaliser),
-   and the two statements about exclude()/without_extras() (MultiMarker.exclude drops a
-   conjunct whose exclusion is <empty>, so the identity needs a normal-form argument). *)
+(* C12 — only() / exclude() / without_extras() eliminate variables soundly.
+   Model: Model/Marker.v `monly`, `mexclude` (S-mark stream, MCOnly / MCExclude cases); every
+   fuel, every set order, every version-atom merge oracle.
+   C12_only_vars / C12_exclude_vars: the result of only(names) mentions no variable outside
+   names; the result of exclude(name) (without_extras() = exclude("extra")) never mentions
+   name - at any nesting depth, whatever the input (hypothesis vmerge_names: a merged version
+   atom mentions only the variables of the two atoms it merges; checked on every row the
+   implementation produces).  The invariant is carried through all nine mutually recursive
+   functions of the normaliser (Proofs/MarkerVars.v: step_vars over the open-recursion bodies).
+   C12_only_implied / C12_only_identity: only() is implied by the marker and equivalent to it
+   when the marker mentions only the kept names (hypothesis vmerge_sound as in C02).
+   NOT proved (direct oracle only): that exclude(name) leaves the meaning unchanged when the
+   marker does not mention name - MultiMarker.exclude drops a conjunct whose exclusion is
+   <empty>, so the identity needs a normal-form argument about the input. *)
 From Coq Require Import List Bool NArith Arith String Lia Permutation.
-From Verif Require Import PyRes Str Marker MarkerBase MarkerSingle MarkerOf MarkerSound MarkerOnly CorrMarker.
+From Verif Require Import PyRes Str Marker MarkerBase MarkerSingle MarkerOf MarkerSound MarkerOnly MarkerVars CorrMarker.
 Import ListNotations.
 
 Section C12.
@@ -33,6 +40,24 @@ Section C12.
   Proof. intros H W. exact (proj1 (monly_sound vmerge vcontains perm good vmerge_sound perm_perm fuel names m r H W)). Qed.
 End C12.
 
+Section C12vars.
+  Variable vmerge : bool -> atom -> atom -> option marker.
+  Variable vcontains : atom -> str -> bool.
+  Variable perm : list marker -> list marker.
+  Hypothesis vmerge_names : forall k a b r, vmerge k a b = Some r ->
+    forall qn, qn (a_name a) = true -> qn (a_name b) = true -> Q qn r = true.
+  Hypothesis perm_perm : forall l, Permutation (perm l) l.
+
+  (* Q qn r: every variable mentioned anywhere in r satisfies qn *)
+  Theorem C12_only_vars names fuel m r :
+    monly vmerge vcontains perm fuel names m = Ret r -> Q (fun n => mem_str n names) r = true.
+  Proof. exact (monly_vars vmerge vcontains perm vmerge_names perm_perm names fuel m r). Qed.
+
+  Theorem C12_exclude_vars name fuel m r :
+    mexclude vmerge vcontains perm fuel name m = Ret r -> Q (fun n => negb (str_eqb n name)) r = true.
+  Proof. exact (mexclude_vars vmerge vcontains perm vmerge_names perm_perm name fuel m r). Qed.
+End C12vars.
+
 (* non-vacuity: (os_name == "a" and sys_platform == "b").only("os_name") = os_name == "a" *)
 Definition no_vm (k : bool) (a b : atom) : option marker := None.
 Example C12_runs :
@@ -41,5 +66,5 @@ Example C12_runs :
   = Ret (MAtom (mkAtom (of_string "os_name") MEq (of_string "a") false)).
 Proof. vm_compute. reflexivity. Qed.
 
-Definition C12_all := (C12_only_implied, C12_only_identity, C12_only_wf).
+Definition C12_all := (C12_only_implied, C12_only_identity, C12_only_wf, C12_only_vars, C12_exclude_vars).
 Redirect "C12.assumptions" Print Assumptions C12_all.
